@@ -63,6 +63,7 @@ func cmdShard(args []string) {
 	insertOnly := fs.Bool("insert-only", false, "insert batches only")
 	maxBatch := fs.Int("maxbatch", 0, "largest random batch (0 = 5)")
 	nids := fs.Int("nids", 0, "size of the id universe (0 = configuration default)")
+	repeatUpd := fs.Bool("repeat-upd", false, "update batches may name a point twice")
 	bfreq := fs.Int("backup-freq", 1, "backup mode: minimum age in seconds of the newest backup before another one is taken")
 	bcount := fs.Int("backup-count", 2, "backup mode: number of backups kept")
 	fs.Parse(args)
@@ -73,6 +74,7 @@ func cmdShard(args []string) {
 	}
 	cfg.CacheSize = *cache
 	cfg.Mem = *mem
+	cfg.RepeatUpd = *repeatUpd
 	tw, err := trace.NewWriter(*out)
 	if err != nil {
 		fmt.Fprintln(os.Stderr, err)
